@@ -1033,6 +1033,10 @@ def C19(ck):
             o = kzcli.level_opts(rnd) + kzcli.extra_opts(rnd)
             cli.single_and_pipes(rnd, k, o, ' '.join(o))
             k += 1
+        for i in range(12 if T else 3):
+            o = kzcli.level_opts(rnd) + ['-j', str(rnd.choice([1, 2, 4]))]
+            cli.stdout_rm(rnd, k, o, ' '.join(o))
+            k += 1
         for i in range(6 if T else 2):
             cli.safety(rnd, k, kzcli.level_opts(rnd) + ['-v', '0'])
             k += 1
@@ -1098,7 +1102,7 @@ def C18(ck):
     os.makedirs(base, exist_ok=True)
     try:
         tracef = os.path.join(base, 'multi.ndjson')
-        rc, so, se, dt = kzv.run([kzh, 'multi', '-n', str(48 if T else 24), '-rounds', str(12 if T else 3), '-seed', str(ck.seed), '-out', tracef], timeout=7200)
+        rc, so, se, dt = kzv.run([kzh, 'multi', '-n', str(40 if T else 16), '-rounds', str(10 if T else 2), '-seed', str(ck.seed), '-out', tracef], timeout=7200)
         if rc != 0:
             raise kzv.ToolFailure('multi driver failed: ' + se[-1500:])
         n1 = int(so.strip() or 0)
@@ -1107,7 +1111,7 @@ def C18(ck):
         logp = os.path.join(base, 'race')
         env = dict(os.environ, GORACE='halt_on_error=0 exitcode=0 log_path=%s' % logp)
         tracer = os.path.join(base, 'multi_race.ndjson')
-        p = kzv.subprocess.run([kzr, 'multi', '-n', str(24 if T else 12), '-rounds', str(4 if T else 1), '-seed', str(ck.seed + 1), '-out', tracer],
+        p = kzv.subprocess.run([kzr, 'multi', '-n', str(20 if T else 6), '-rounds', str(4 if T else 1), '-seed', str(ck.seed + 1), '-scale', '50', '-out', tracer],
                                env=env, stdout=kzv.subprocess.PIPE, stderr=kzv.subprocess.PIPE, timeout=7200)
         if p.returncode != 0:
             raise kzv.ToolFailure('multi driver (race build) failed: ' + p.stderr.decode()[-1500:])
@@ -1167,7 +1171,7 @@ def C18(ck):
                                  'perturbed schedules, each compared with its isolated run (Trace_Multi.tla)')
     finally:
         shutil.rmtree(base, ignore_errors=True)
-    ck.cov['rule'] = ('ownership invariants model-checked; N pipelines (the ten level presets + random chains x codecs, jobs 1..16 on both sides) run alone then all '
+    ck.cov['rule'] = ('ownership invariants model-checked; per round: every transform and every entropy codec twice on data that activates it (several blocks, jobs 2..8 on both sides) + the ten level presets + random chains, run alone then all '
                       'together with yields/sleeps injected at the hooks: stream and decoded output must be identical (Trace_Multi); the same plus the model '
                       'schedules in a -race build: any race report whose stack is in the repository is a violation')
     ck.assumptions += ['absence of a race report is not a proof of race freedom: only executed schedules are observed']
